@@ -3,6 +3,8 @@ package props
 import (
 	"fmt"
 	"strings"
+	"sync"
+	"time"
 
 	"github.com/fluffle/goirc/client"
 
@@ -25,6 +27,9 @@ func init() {
 				n = 14
 			}
 			bs = append(bs, splitBatches("prng", n, false, 2, map[string]string{"mode": "prng"})...)
+			for _, p := range []int{2, 8} {
+				bs = append(bs, Batch{Name: fmt.Sprintf("conc-p%d", p), Args: map[string]string{"mode": "conc", "procs": fmt.Sprint(p)}, Race: true, Procs: p, Weight: min(p, 4)})
+			}
 			return bs
 		},
 		Run: runC11,
@@ -125,12 +130,19 @@ func (cs *c11Sess) flush(c *Ctx) bool {
 	}
 	lines, _ := cs.mc.Take()
 	lines = lines[:len(lines)-1]
+	ok := c11Judge(c, cs, cs.pending, lines)
+	cs.pending = cs.pending[:0]
+	return ok
+}
+
+// c11Judge attributes the wire lines to the calls (in order) and checks every call.
+func c11Judge(c *Ctx, cs *c11Sess, pending []c11Call, lines []string) bool {
 	eff := cs.splitLen
 	if eff < 13 {
 		eff = 450
 	}
 	li := 0
-	for _, call := range cs.pending {
+	for _, call := range pending {
 		c.J.Log("CASE %s %s len=%d sl=%d", call.caseID, call.m.Name, len(call.text), cs.splitLen)
 		c.R.Eval(1)
 		prefix := call.m.Verb + " " + call.target + " :"
@@ -174,11 +186,11 @@ func (cs *c11Sess) flush(c *Ctx) bool {
 		}
 		if bad != "" {
 			viol("wrapper", bad)
-			return cs.abort(c)
+			return false
 		}
 		if len(pieces) == 0 {
 			viol("no-output", "no line with the call's target followed")
-			return cs.abort(c)
+			return false
 		}
 		var sb strings.Builder
 		ok := true
@@ -212,7 +224,7 @@ func (cs *c11Sess) flush(c *Ctx) bool {
 			ok = false
 		}
 		if !ok {
-			return cs.abort(c)
+			return false
 		}
 		if len(pieces) > 1 {
 			nb := fmt.Sprint(len(pieces))
@@ -238,16 +250,10 @@ func (cs *c11Sess) flush(c *Ctx) bool {
 		}
 	}
 	if li != len(lines) {
-		c.R.Violate(rig.Violation{Sig: "c11|extra-lines", Detail: fmt.Sprintf("%d unattributed lines after the batch, first %q", len(lines)-li, clipS(lines[li])), Case: cs.pending[len(cs.pending)-1].caseID})
-		return cs.abort(c)
+		c.R.Violate(rig.Violation{Sig: "c11|extra-lines", Detail: fmt.Sprintf("%d unattributed lines after the batch, first %q", len(lines)-li, clipS(lines[li])), Case: pending[len(pending)-1].caseID})
+		return false
 	}
-	cs.pending = cs.pending[:0]
 	return true
-}
-
-func (cs *c11Sess) abort(c *Ctx) bool {
-	cs.pending = cs.pending[:0]
-	return false
 }
 
 func clipS(s string) string {
@@ -354,6 +360,8 @@ func runC11(c *Ctx) {
 		}
 		cs.close(c)
 		c.R.Exhaustive[fmt.Sprintf("all texts over {a,space,.} of length %d..%d at SplitLen 13", lo, hi)] = c.Only == ""
+	case "conc":
+		runC11Conc(c)
 	case "prng":
 		total := c.Pick(600_000, 12_000_000)
 		per := total / parts
@@ -389,6 +397,104 @@ func runC11(c *Ctx) {
 		}
 		if cs != nil {
 			cs.close(c)
+		}
+	}
+}
+
+// runC11Conc: several goroutines send split-worthy messages through one
+// client at the same time, each to targets of its own; per goroutine the
+// wire lines carrying its targets must be exactly its calls' pieces in order.
+func runC11Conc(c *Ctx) {
+	rounds := c.Pick(30, 400)
+	procs := c.Arg("procs", "?")
+	for idx := 0; idx < rounds; idx++ {
+		if !c.Want("conc", idx) {
+			continue
+		}
+		r := rig.Rand(c.Seed, "C11", "conc", procs, idx)
+		sl := []int{13, 20, 50, 450}[r.Intn(4)]
+		cs := c11Open(c, sl)
+		if cs == nil {
+			return
+		}
+		ng := 2 + r.Intn(7)
+		perG := 20 + r.Intn(40)
+		c.J.Log("CASE %s goroutines=%d calls=%d sl=%d", Case("conc", idx), ng, perG, sl)
+		if r.Intn(2) == 0 {
+			cs.mc.Stall(0) // back-pressure: senders block in the middle of a split message
+		}
+		plans := make([][]c11Call, ng)
+		for g := 0; g < ng; g++ {
+			rg := rig.Rand(c.Seed, "C11", "concg", procs, idx, g)
+			for k := 0; k < perG; k++ {
+				text, cls := c11Text(rg, sl)
+				if len(text) > 3000 {
+					text = text[:3000]
+				}
+				m := &c11Methods[rg.Intn(len(c11Methods))]
+				plans[g] = append(plans[g], c11Call{caseID: Case("conc", idx), m: m, target: fmt.Sprintf("#g%d%c", g, "ab"[k%2]), text: text, class: "conc-" + cls})
+			}
+		}
+		done := make(chan struct{})
+		go func() {
+			var wg sync.WaitGroup
+			for g := 0; g < ng; g++ {
+				wg.Add(1)
+				go func(g int) {
+					defer wg.Done()
+					for _, call := range plans[g] {
+						call.m.Call(cs.s.Conn, call.target, call.text)
+					}
+				}(g)
+			}
+			wg.Wait()
+			close(done)
+		}()
+		// let the senders run into the full queue, then read in bursts
+		for k := 0; k < 200; k++ {
+			select {
+			case <-done:
+			default:
+				cs.mc.Allow(1 + r.Intn(30))
+				time.Sleep(time.Duration(20+r.Intn(200)) * time.Microsecond)
+				continue
+			}
+			break
+		}
+		cs.mc.Resume()
+		if !waitCh(done) {
+			c.R.Inconcl(fmt.Sprintf("%s: senders did not finish", Case("conc", idx)))
+			return
+		}
+		cs.s.Conn.Raw("VSYNC conc")
+		if !cs.mc.WaitLines(WaitLong, func(lines []string) bool { return len(lines) > 0 && lines[len(lines)-1] == "VSYNC conc" }) {
+			c.R.Inconcl(fmt.Sprintf("%s: separator not seen", Case("conc", idx)))
+			return
+		}
+		lines, _ := cs.mc.Take()
+		lines = lines[:len(lines)-1]
+		ok := true
+		attributed := 0
+		for g := 0; g < ng && ok; g++ {
+			var mine []string
+			ta, tb := fmt.Sprintf(" #g%da :", g), fmt.Sprintf(" #g%db :", g)
+			for _, l := range lines {
+				if strings.Contains(l[:min(len(l), 24)], ta) || strings.Contains(l[:min(len(l), 24)], tb) {
+					mine = append(mine, l)
+				}
+			}
+			attributed += len(mine)
+			ok = c11Judge(c, cs, plans[g], mine)
+		}
+		if ok && attributed != len(lines) {
+			c.R.Violate(rig.Violation{Sig: "c11|extra-lines", Detail: fmt.Sprintf("%d of %d wire lines belong to no sender's target", len(lines)-attributed, len(lines)), Case: Case("conc", idx)})
+			ok = false
+		}
+		c.R.Count("concurrent_rounds", 1)
+		cs.s.Conn.Close()
+		cs.s.Release()
+		if !ok && c.R.NumViolations() > 10 {
+			return
 		}
 	}
 }
